@@ -211,6 +211,13 @@ func opSoc(op map[string]interface{}, out *kit.Out) error {
 	r := rngFor(op)
 	k, i, wlen, mut := kit.Int(op, "key"), kit.Int(op, "id"), kit.Int(op, "wlen"), kit.Str(op, "mut")
 	priv := refhash.Key(keyOf(k))
+	_, classed := op["xz"] // SOCGen.tla: the k-th key of a class of leading zero bytes (secret scalar, public X, public Y)
+	if classed {
+		var err error
+		if priv, err = classKey(k, keyClass{kit.Int(op, "dz"), kit.Int(op, "xz"), kit.Int(op, "yz")}); err != nil {
+			return err
+		}
+	}
 	signer := crypto.NewDefaultSigner(priv)
 	id := idOf(i)
 	wrapped := payloadOf(r, wlen, "len")
@@ -224,6 +231,9 @@ func opSoc(op map[string]interface{}, out *kit.Out) error {
 		"valid0": false, "parseOK": false, "reAddr": false, "reData": false, "wrappedMatch": false,
 		"addrIsKeccak": false, "createAddr": false,
 		"plen": 0, "wok": false, "rec": false, "com": false, "valid": false, "panicked": false, "pos": -1, "v0": -1}
+	if classed { // the class as observed on the key used
+		ev["dz"], ev["xz"], ev["yz"] = leadZ(priv.D), leadZ(priv.PublicKey.X), leadZ(priv.PublicKey.Y)
+	}
 
 	// the chunk as the package under test builds and signs it
 	var sch boson.Chunk
